@@ -45,6 +45,9 @@ func (r Record) Expected() Expected {
 	for _, x := range r.Extra {
 		e.Other[x.Key] = x.Text()
 	}
+	if len(r.Contig) > 0 {
+		e.Other["CONTIG"] = j(r.Contig)
+	}
 	for _, f := range r.Features {
 		ef := ExpectedFeature{Type: f.Key, Location: f.Loc.Text(), Attributes: map[string]string{}}
 		for _, q := range f.Qualifiers {
